@@ -1,7 +1,7 @@
 //! Which engines, with how many cases, decide each property at each tier.
 
 use rt::run::{Job, Plan, Tier};
-use hist::{sched_engine, sized_engine, thin_engine};
+use hist::{sched_engine, sched_thin_engine, sized_engine, thin_engine};
 use mx::MatrixEngine;
 
 use crate::FLAVOUR;
@@ -83,6 +83,10 @@ pub fn plan(prop: &str, tier: Tier) -> Option<Plan> {
                 jobb(sched_engine("plain8", "C02", 24), if q { 12_000 } else { 500_000 }, "all"),
                 jobb(sched_engine("plain16", "C02", 24), if q { 6_000 } else { 250_000 }, "all"),
                 jobb(sched_engine("tokz", "C02", 24), if q { 6_000 } else { 250_000 }, "all"),
+                jobb(sched_thin_engine("8b/8", "C02", 24), if q { 20_000 } else { 600_000 }, "all"),
+                jobb(sched_thin_engine("1/16", "C02", 24), if q { 6_000 } else { 200_000 }, "all"),
+                jobb(sched_thin_engine("plain", "C02", 24), if q { 10_000 } else { 300_000 }, "all"),
+                jobb(sched_thin_engine("8b/8", "C02", 24), if q { 6_000 } else { 200_000 }, "nostd"),
                 jobb(sched_engine("tok8", "C02", 24), if q { 12_000 } else { 500_000 }, "nostd"),
             ],
         ),
@@ -94,6 +98,7 @@ pub fn plan(prop: &str, tier: Tier) -> Option<Plan> {
                 let mut v = sized_jobs("C03", if q { 48 } else { 128 }, if q { 6000 } else { 100_000 }, both);
                 v.extend(thin_jobs("C03", if q { 40 } else { 128 }, if q { 3000 } else { 60_000 }, both));
                 v.push(jobb(sched_engine("tok8", "C03", 24), if q { 50_000 } else { 2_000_000 }, "all"));
+                v.push(jobb(sched_thin_engine("8b/8", "C03", 24), if q { 15_000 } else { 500_000 }, "all"));
                 v.push(jobb(sched_engine("tok8", "C03", 24), if q { 10_000 } else { 300_000 }, "nostd"));
                 v
             },
